@@ -148,7 +148,7 @@ def probe(run, b, feats, enabled, ref=None):
         # outputs
         sinkof = {"devlog": "devlog", "socket": "sock", "file": "log", "stdout": "fd1", "stderr": "fd2", "devtty": "tty", "devnull": None,
                   "syslog": None, "noop": None}
-        for name in outs:
+        for name in outs + ["noop"]:
             arg = {"socket": b":" + out.encode() + b"/sock", "file": b":" + out.encode() + b"/log"}.get(name, b"")
             ini = gen.render_ini([(b"output", name.encode() + arg), (b"message_format", b"O")])
             ops = [drv.op("x", out + "/log"), drv.op("f"), drv.op("T"), drv.op("S", 1, "pipe"), drv.op("S", 2, "pipe"),
@@ -183,6 +183,11 @@ def judge(obs, ref, feats, enabled):
                 bad["%{" + name + "}"] = {"got": got[:120], "expected": "unknown data source (feature switched off)"}
             continue
         R = obs["_R"][i]
+        absolute = {"snoopy_literal": b"lit", "env": b"probe-value", "cmdline": b"probe x", "filename": b"/bin/probe",
+                    "failure": b"[ERROR: Data source 'failure' failed with the following error message: 'Artificial datasource failure triggered']"}
+        if name in absolute and got != absolute[name]:
+            bad["%{" + name + "}"] = {"got": got[:120], "expected": absolute[name]}
+            continue
         special = {"pid": pid, "ppid": ppid, "sid": sid, "uid": ru, "euid": eu, "gid": rg, "egid": eg, "tid_kernel": R.f[7], "tid": R.f[8],
                    "cwd": Q[4], "tty": Q[6], "tty_uid": Q[7], "hostname": Q[5], "snoopy_configure_command": obs["_cfgcmd"]}
         if name in special:
@@ -211,12 +216,15 @@ def judge(obs, ref, feats, enabled):
             want = pr[1] if ("fl", name) in enabled else True      # a switched-off filter is an unknown name: ignored
             if got != want:
                 bad["filter " + pr[0]] = {"logged": got, "expected_logged": want}
-    for name in outs:
+    # absolute expectations: where the record of output X lands (nothing observable for devnull / noop / syslog(3))
+    SINK = {"devlog": ["devlog"], "socket": ["sock"], "file": ["log"], "stdout": ["fd1"], "stderr": ["fd2"], "devtty": ["tty"], "devnull": [],
+            "syslog": [], "noop": []}
+    for name in outs + ["noop"]:
         got = obs["out:" + name]
-        if ("out", name) in enabled:
-            want = ref["out:" + name]
+        if ("out", name) in enabled or name == "noop":
+            want = SINK[name]
         else:
-            want = ref["out:devlog"] if ("out", "devlog") in enabled else []      # unknown output name -> built-in default output
+            want = SINK["devlog"] if ("out", "devlog") in enabled else []      # unknown output name -> built-in default output
         if got != want:
             bad["output " + name] = {"sinks_with_data": got, "expected": want}
     return bad
